@@ -1313,6 +1313,46 @@ func c03AddRemove(c *Ctx, p *Prog, m *Model) {
 		sort.Strings(missing)
 		r.Check(len(missing) == 0, "R03.5", key, p.FuncPos(b), fmt.Sprintf("wrappers created by %s %v are all unwrapped by %s", pr[0], sortedKeys(cr), pr[1]),
 			fmt.Sprintf("%s wraps a writer in %v but %s never looks inside that wrapper: such a writer can never be removed", pr[0], missing, pr[1]))
+		// ... and a writer that is stored as it is (it already is a LogWriter) is found by comparing the member itself with
+		// the argument, whether or not the member happens to be a wrapper
+		nDirect, nFree := 0, 0
+		for g := range staticReach([]*ssa.Function{b}, func(f *ssa.Function) bool { return f.Pkg != p.Slog }) {
+			for _, blk := range g.Blocks {
+				for _, in := range blk.Instrs {
+					bo, ok := in.(*ssa.BinOp)
+					if !ok || bo.Op != token.EQL || !types.IsInterface(bo.X.Type()) || !types.IsInterface(bo.Y.Type()) {
+						continue
+					}
+					isPrm := func(v ssa.Value) bool { _, ok := strip(v).(*ssa.Parameter); return ok }
+					isMember := func(v ssa.Value) bool {
+						u, ok := strip(v).(*ssa.UnOp)
+						if !ok || u.Op != token.MUL {
+							return false
+						}
+						_, isIdx := u.X.(*ssa.IndexAddr)
+						return isIdx
+					}
+					if !((isPrm(bo.X) && isMember(bo.Y)) || (isPrm(bo.Y) && isMember(bo.X))) {
+						continue
+					}
+					nDirect++
+					underOK := false
+					for _, gd := range guardsOf(blk) {
+						cond, neg := normCond(gd.If.Cond)
+						if ex, isEx := cond.(*ssa.Extract); isEx && ex.Index == 1 && (gd.Succ == 0) != neg {
+							if _, isTA := ex.Tuple.(*ssa.TypeAssert); isTA {
+								underOK = true
+							}
+						}
+					}
+					if !underOK {
+						nFree++
+					}
+				}
+			}
+		}
+		r.Check(nDirect > 0 && nFree > 0, "R03.5", key+":direct", p.FuncPos(b), "a member stored unwrapped is found by comparing the member itself with the argument",
+			fmt.Sprintf("%s stores a writer that already is a LogWriter as it is, but %s compares the member itself with the argument only after the member was found to be a wrapper (%d comparison(s), %d outside a wrapper test): such a writer is never removed", pr[0], pr[1], nDirect, nFree))
 	}
 }
 
